@@ -57,6 +57,17 @@ func c17(c *Sexp) *Sexp {
 	if err := t.ReinitIndexes(); err != nil {
 		return L(KV("panic", A("reinit: "+err.Error())))
 	}
+	if k := c.Get("keep"); k != nil && k.IsList {
+		keep := map[int]bool{}
+		for _, x := range k.List {
+			var v int
+			if _, err := fmt.Sscanf(x.Atom, "%d", &v); err != nil || v < 0 {
+				return L(KV("panic", A("harness: bad index "+x.Atom)))
+			}
+			keep[v] = true
+		}
+		return c17greedy(r, t, keep)
+	}
 	if c.Get("at") != nil {
 		// a second enumeration with the SAME rearranger value is started from inside the callback
 		// of the first one, while proposal number `at` is applied: on another tree (nested T2) or
@@ -272,6 +283,52 @@ func c17par(r *tree.NNIRearranger, ts *Sexp) *Sexp {
 		runs.List = append(runs.List, o)
 	}
 	return L(KV("runs", runs))
+}
+
+// c17greedy: the callback KEEPS the proposals whose rank is in keep (Apply, no Undo) and lets the
+// enumeration continue; every other proposal is applied, dumped and undone (dump again).
+// Every visit: ((idx i) (kept T|F) (err e) (tree T) (audit ..) (nw s) [(utree T) (uaudit ..) (unw s)]).
+func c17greedy(r *tree.NNIRearranger, t *tree.Tree, keep map[int]bool) (obs *Sexp) {
+	defer func() {
+		if p := recover(); p != nil {
+			obs = L(KV("panic", A(c17panicStr(p))))
+		}
+	}()
+	orig, oaudit, nw0, sane := c17dump(t)
+	if !sane {
+		return L(KV("panic", A("harness: the tree built fails the audit: "+oaudit.List[0].Atom)))
+	}
+	visits := L()
+	var operr error
+	n := 0
+	r.Rearrange(t, func(re tree.Rearrangement) bool {
+		idx := n
+		n++
+		e := re.Apply()
+		d, audit, nw, ok := c17dump(t)
+		if e == nil && ok {
+			e = t.CheckTreePostOrder()
+		}
+		v := L(KV("idx", I(idx)), KV("kept", B(keep[idx])), KV("err", A(errStr(e))), KV("tree", d), KV("audit", audit), KV("nw", A(nw)))
+		if e == nil && ok && !keep[idx] {
+			e = re.Undo()
+			ud, uaudit, unw, uok := c17dump(t)
+			if e == nil && uok {
+				e = t.CheckTreePostOrder()
+			}
+			v.List = append(v.List, KV("uerr", A(errStr(e))), KV("utree", ud), KV("uaudit", uaudit), KV("unw", A(unw)))
+			ok = uok
+		}
+		visits.List = append(visits.List, v)
+		if e != nil || !ok {
+			operr = e
+			return false
+		}
+		return true
+	})
+	final, faudit, nwf, _ := c17dump(t)
+	return L(KV("err", A(errStr(operr))), KV("n", I(n)), KV("orig", orig), KV("nw0", A(nw0)),
+		KV("visits", visits), KV("final", final), KV("audit", faudit), KV("nwf", A(nwf)))
 }
 
 // c17dump: structural dump + audit (cycle-safe), and the Newick text only when the audit is clean.
